@@ -61,7 +61,12 @@ static Result run_c06(const Case &c) {
     const int SENT = 0x5a5a5a5a;
     int *out = (int *)malloc(sizeof(int) * n);
     for (int i = 0; i < n; i++) out[i] = SENT;
+    // the answer belongs to THIS descriptor: another instance of the same back end (other table / boundary shape)
+    // created after it - alive or already destroyed again at the time of the query - changes nothing
+    std::unique_ptr<Instance> sib;
+    if (c.get("sib", -1) >= 0) { sib = make_sibling(g, (int)c.get("sib"), r); if (!c.get("sib_keep", 0)) sib.reset(); }
     int rc = liberasurecode_fragments_needed(cx.in->desc, rl, xl, out);
+    sib.reset();
     for (size_t i = 0; i < R.size(); i++) if (rl[i] != R[i]) r.fail("fragments_to_reconstruct list modified");
     for (size_t i = 0; i < X.size(); i++) if (xl[i] != X[i]) r.fail("fragments_to_exclude list modified");
     std::vector<int> N;
@@ -138,6 +143,8 @@ static Result run_c06_nt(const Case &c) {
 
 static void emit(const Config &g, const std::vector<int> &R, const std::vector<int> &X) {
     Case c; cfg_to(c, g); c.setv("R", R); c.setv("X", X);
+    static int emitted = 0;
+    if ((++emitted % 4) == 0) { c.set("sib", emitted / 4 * 8 + (emitted / 4) % 8); c.set("sib_keep", (emitted / 4) & 1); }
     sweep_case(c, run_c06_nt);
 }
 // all disjoint (R != {}, X) with |R|+|X| <= limit, both list orders
@@ -211,6 +218,7 @@ static Case gen_c06() {
     nr = std::max(1, nr);
     std::vector<int> R(all.begin(), all.begin() + nr), X(all.begin() + nr, all.begin() + tot);
     c.setv("R", R); c.setv("X", X);
+    if (coin(1, 3)) { c.set("sib", pick(0, 1 << 12)); c.set("sib_keep", coin() ? 1 : 0); }
     return c;
 }
 
